@@ -38,7 +38,7 @@ def _scenario(draw, tier):
         d = draw(st.sampled_from([1, 2, 3]))
     ops = []
     for _ in range(draw(st.integers(1, 4))):
-        k = draw(st.sampled_from(["propose_add", "propose_add", "add_random", "add_duplicate", "add_outlier", "propose", "decoy", "anneal"]))
+        k = draw(st.sampled_from(["propose_add", "propose_add", "add_random", "add_duplicate", "add_outlier", "propose", "decoy", "anneal", "lik_query"]))
         ops.append([k, draw(st.integers(0, 2 ** 16))])
     return dict(
         d=d, n0=n0, seed=draw(st.integers(0, 2 ** 32 - 1)),
@@ -322,6 +322,29 @@ def execute(sc):
             og = np.random.Generator(np.random.PCG64([s, 5]))
             prop = None
             try:
+                if name == "lik_query":
+                    # read-only model-selection queries on the live regressor (other hyper-parameter values): the regressor
+                    # state - and with it every acquisition value and gradient - must be what it was
+                    try:
+                        th0 = np.array(opt.gp.hyperpars, dtype=float, copy=True)
+                        q0 = np.asarray(lo + (hi - lo) * og.random(d), dtype=float)
+                        before_ = [np.asarray(v, dtype=float).copy() for v in opt.gp(q0.reshape(1, d))]
+                        for sh in (0.9, -0.6):
+                            lib_call("gp.marginal_likelihood", opt.gp.marginal_likelihood, th0 + sh)
+                            lib_call("gp.loo_likelihood", opt.gp.loo_likelihood, th0 - sh)
+                        after_ = [np.asarray(v, dtype=float) for v in opt.gp(q0.reshape(1, d))]
+                    except LibRaised:
+                        stats["warn_likelihood_query_failed"] += 1
+                        continue
+                    except Exception:  # noqa - another regressor interface: not interpretable
+                        stats["warn_likelihood_query_failed"] += 1
+                        continue
+                    stats["fault_likelihood_queries_on_live_regressor"] += 1
+                    if any(not np.array_equal(a_, b_) for a_, b_ in zip(after_, before_)) or not np.array_equal(np.asarray(opt.gp.hyperpars, dtype=float), th0):
+                        _viol(V, "data.refit", "read-only likelihood queries changed the regressor's predictions / hyper-parameters")
+                        break
+                    spot_oracles(V, opt, sc, bounds, og, stats)
+                    continue
                 if name == "anneal":
                     # the public exploration parameter of a live acquisition object is changed between iterations
                     if sc["acq"] == "UCB" and hasattr(opt.acquisition, "kappa"):
